@@ -36,6 +36,7 @@ type Item struct {
 	N  string `json:"n,omitempty"`
 	K  string `json:"k,omitempty"`
 	ID uint64 `json:"id,omitempty"` // optional explicit node id
+	Zero bool `json:"zero,omitempty"` // explicit node id 0
 }
 
 type Ring struct {
@@ -120,7 +121,7 @@ func Build(layout []Item, seed int64, variant int, logger *zap.Logger) *Ring {
 			it := layout[i+int(k)]
 			var v uint64
 			switch {
-			case it.ID != 0:
+			case it.ID != 0 || it.Zero:
 				v = it.ID
 			case variant == 1:
 				v = lo + 1 + k
@@ -137,7 +138,7 @@ func Build(layout []Item, seed int64, variant int, logger *zap.Logger) *Ring {
 		i = j
 	}
 	for i, it := range layout {
-		if i > 0 && vals[i] <= vals[i-1] {
+		if i > 0 && vals[i] <= vals[i-1] && !(layout[i].ID != 0 || layout[i].Zero) {
 			panic(fmt.Sprintf("layout not increasing at %d: %d <= %d", i, vals[i], vals[i-1]))
 		}
 		r.Rank[vals[i]] = i
